@@ -206,16 +206,19 @@ class SimFS:
         self.on_fire = on_fire or (lambda kind: None)
         self.opened = []            # (path, mode, outcome)
         self.handles = []           # weak references to open write handles
+        self.cwd = ""               # simulated working directory (relative
+        #                             to the root of the simulated disk)
         for p, e in (entries or {}).items():
             self.entries[self.norm(p)] = dict(e)
 
-    @staticmethod
-    def norm(path):
+    def norm(self, path):
         path = os.fspath(path)
         if isinstance(path, bytes):
             path = path.decode("utf-8", "surrogateescape")
         if path.startswith("/simfs/"):
             path = path[len("/simfs/"):]
+        elif self.cwd and not os.path.isabs(path):
+            path = os.path.join(self.cwd, path)
         return os.path.normpath(path)
 
     @staticmethod
@@ -400,6 +403,10 @@ def open_router(fs):
         setattr(owner, name, fn)
     saved_os["lexists"] = os.path.lexists
     os.path.lexists = exists
+    # the working directory of the simulated process
+    saved_os["getcwd"] = os.getcwd
+    os.getcwd = lambda: ("/simfs/" + fs.cwd) if fs.cwd else \
+        saved_os["getcwd"]()
     try:
         yield fs
     finally:
@@ -412,6 +419,7 @@ def open_router(fs):
         os.path.lexists = saved_os["lexists"]
         os.access = saved_os["access"]
         os.stat = saved_os["stat"]
+        os.getcwd = saved_os["getcwd"]
 
 
 # ---------------------------------------------------------------------------
